@@ -305,7 +305,7 @@ def run_pool(root, tasks, limit, nworkers, monitor=False, tag='p', max_timeouts_
                     break
                 with lock:
                     if timeouts.get(t['algo'], 0) >= max_timeouts_per_algo:
-                        results[t['id']] = {'id': t['id'], 'status': 'skipped', 'why': 'earlier hangs of this algorithm'}
+                        results[t['id']] = {'id': t['id'], 'status': 'skipped', 'why': 'earlier failures of this algorithm'}
                         continue
                 r = w.run(t, limit)
                 if r['status'] in ('timeout', 'crash'):
@@ -324,9 +324,10 @@ def run_pool(root, tasks, limit, nworkers, monitor=False, tag='p', max_timeouts_
                     else:
                         r2['first_attempt'] = r['status']
                         r = r2
-                    if r['status'] == 'timeout':
-                        with lock:
-                            timeouts[t['algo']] = timeouts.get(t['algo'], 0) + 1
+                if r['status'] in ('timeout', 'crash') or r.get('oob'):
+                    # a concrete failing input of this algorithm is in hand: two are enough for one run
+                    with lock:
+                        timeouts[t['algo']] = timeouts.get(t['algo'], 0) + 1
                 with lock:
                     results[t['id']] = r
         finally:
@@ -486,8 +487,7 @@ def build_tasks(ctx, flavour, quick):
     tasks = []
 
     def add(algo, g, extra=None):
-        if g['n'] != g['m'] and algo in ALGOS_SQUARE_ONLY:
-            return
+        # rectangular inputs go to every algorithm: those that need a square matrix must refuse it with an exception
         if algo == 'get_cycles' and g['n'] > 7:
             return      # the number of simple cycles (the output) is exponential in dense graphs: not a hang
         t = {'id': len(tasks), 'algo': algo, 'graph': g, 'extra': extra or {}, 'flavour': flavour}
@@ -541,7 +541,7 @@ def judge(ctx, tasks, results, flavour):
                tuple(t['graph']['indptr']))
         kind = None
         if st == 'skipped':
-            ctx.count('%s:skipped-after-hangs' % flavour)
+            ctx.count('%s:skipped-after-failures' % flavour)
             continue
         ctx.case(key, p['nnz'] > 0, sample={'request': '%s %s on %s (%s build)' % (t['algo'], t['extra'], t['graph']['name'], flavour),
                                             'model': 'returns or raises within the limit; no bounds violation',
